@@ -61,6 +61,7 @@ func VerifyIndex(ctx context.Context, name string, idx Index, n int, pb Progress
 	batch := chunksNum / (n * 10)
 
 	// Feed the workers, stop if there are any errors
+	var interrupted bool
 loop:
 	for i := 0; i < chunksNum; i = i + batch + 1 {
 		verifYield("verifyindex.feed")
@@ -71,11 +72,18 @@ loop:
 		}
 		select {
 		case <-ctx.Done():
+			interrupted = true
 			break loop
 		case in <- idx.Chunks[i : last+1]:
 		}
 	}
 	close(in)
 
-	return g.Wait()
+	if err := g.Wait(); err != nil {
+		return err
+	}
+	if interrupted { // stopped early without a worker failing, not everything was verified
+		return Interrupted{}
+	}
+	return nil
 }
